@@ -65,9 +65,21 @@ def run(ctx):
         n_sites += 1
         g = CFG(f.node, name=f.qualname)
 
-        def atom(e, c=c):
-            return True if e is c else None
-        tests = [t for t in g.stmt_nodes() if t.kind == "test" and any(x is c for x in ast.walk(t.expr))]
+        # the result may be tested directly or through a local that is otherwise only ever False (`claimed = False` in a lost-race arm)
+        held = None
+        for n_ in own_nodes(f.node):
+            if isinstance(n_, ast.Assign) and n_.value is c and len(n_.targets) == 1 and isinstance(n_.targets[0], ast.Name):
+                nm = n_.targets[0].id
+                others = [m_.value for m_ in own_nodes(f.node) if isinstance(m_, ast.Assign) and m_ is not n_
+                          and any(isinstance(t_, ast.Name) and t_.id == nm for t_ in m_.targets)]
+                if all(isinstance(o, ast.Constant) and o.value is False for o in others):
+                    held = nm
+
+        def atom(e, c=c, held=held):
+            if e is c or (held is not None and isinstance(e, ast.Name) and e.id == held):
+                return True
+            return None
+        tests = [t for t in g.stmt_nodes() if t.kind == "test" and any(x is c or (held is not None and isinstance(x, ast.Name) and x.id == held) for x in ast.walk(t.expr))]
         ok = bool(tests)
         wit = None
         if ok:
